@@ -1,5 +1,7 @@
 import MakoModel.Conc.LemmasInv
-/-! The LRU bound (quiescent) and the render/memo-cell invariants. -/
+/-! `lru_bound_quiescent` (`LruInv`) and `renders_independent`: memo cells are unset or hold their one complete value
+(`MemoInv`), a step writes a cell completely or not at all (`step_memo_complete`), render results equal the solo output
+(`RenderInv`). -/
 namespace MakoModel.Conc
 open MakoModel.Generated.Lookup
 
